@@ -47,6 +47,16 @@ func genUMCases(r *Rng, n int, id string) []Case {
 		{Cfg: UCfg{Defs: []UDef{{Kind: "k1", Keys: []int{35}}}, Reg: []int{0}}, Doc: &UDoc{Msg: "m", Kind: "k1", Fields: map[string]int{"arr3": 26}}},
 		{Cfg: UCfg{Defs: []UDef{{Kind: "k1", Keys: []int{32}}}, Reg: []int{0}}, Doc: &UDoc{Msg: "m", Kind: "k1", Fields: map[string]int{"pn": 30}}},
 	}
+	// a composite value encoding/json cannot marshal, for a field bound via JSON: classified ErrInternal,
+	// at the top level and inside a cause; a nil value under an unregistered / a declared name
+	for _, strict := range []bool{false, true} {
+		for _, fv := range [][2]string{{"ints", "listChan"}, {"ints", "listInf"}, {"p", "mapNaN"}, {"msi", "mapNaN"}, {"zz", "nil"}, {"n", "nil"}, {"p", "nil"}} {
+			doc := &UDoc{Msg: "m", Kind: "k1", Fields: map[string]int{fv[0]: umValueIndex(fv[1])}}
+			cfg := UCfg{Defs: []UDef{{Kind: "k1", Keys: []int{26, 24, 27, 2}}}, Reg: []int{0}, Strict: strict}
+			corpus = append(corpus, UCase{Cfg: cfg, Doc: doc},
+				UCase{Cfg: cfg, Doc: &UDoc{Msg: "top", Kind: "k1", Causes: []*UDoc{doc}}})
+		}
+	}
 	for _, c := range corpus {
 		out = append(out, runUM(c))
 	}
